@@ -262,3 +262,39 @@ Definition py_init_dirs (root out_dir : path) : list path := init_chain (rel roo
     the -out directory, when the sources live under [src_root] and -out is [out] *)
 Definition rel_output_dir (lang : Z) (out : path) (ns : option str) (name : str) : path :=
   rel out (output_dir lang out ns name).
+
+(* ------------------------------------------------------------------------------------------ *)
+(** * 7. Global state (compiler/globals/globals.go, compiler/compiler.go:46-56)
+
+    [Compile] copies its options into package-level variables, runs, and `defer globals.Reset()`
+    restores every variable to its initial value; CompiledFiles is the only one written during
+    generation.  (Now is restored to the current time; it is read by
+    java:generated_annotations=use only, which the property excludes.) *)
+
+Record globals := mk_globals {
+  g_delim : str; g_gen : str; g_out : str; g_filedir : str;
+  g_dryrun : bool; g_recurse : bool; g_verbose : bool; g_compiled : list str }.
+
+Definition globals_init : globals := mk_globals [46] [] [] [] false false false [].
+
+Definition globals_reset_fn (_ : globals) : globals := globals_init.
+
+Record options := mk_options {
+  o_file_dir : str; o_gen : str; o_out : str; o_delim : str; o_dryrun : bool; o_recurse : bool; o_verbose : bool }.
+
+(** the assignments at the top of Compile: every variable except CompiledFiles is overwritten *)
+Definition globals_set (o : options) (g : globals) : globals :=
+  mk_globals (o_delim o) (o_gen o) (o_out o) (o_file_dir o) (o_dryrun o) (o_recurse o) (o_verbose o)
+             (g_compiled g).
+
+(** one Compile: the globals generation starts from, and the globals left behind.
+    [generated] are the files generateFrugalRec added to CompiledFiles. *)
+Definition compile_globals (o : options) (generated : list str) (g : globals) : globals * globals :=
+  let seen := globals_set o g in
+  let during := mk_globals (g_delim seen) (g_gen seen) (g_out seen) (g_filedir seen) (g_dryrun seen)
+                           (g_recurse seen) (g_verbose seen) (generated ++ g_compiled seen) in
+  (seen, globals_reset_fn during).
+
+(** a history of compiles in one process *)
+Definition run_compiles (hist : list (options * list str)) (g : globals) : globals :=
+  fold_left (fun g og => snd (compile_globals (fst og) (snd og) g)) hist g.
